@@ -89,11 +89,25 @@ class Globals:
         self.fn_returns_tuple_set: dict[str, list[int]] = {}
         self.fn_returns_setcontainer: set[str] = set()
         self.fn_returns_listing: set[str] = set()   # functions/generators that hand on a directory listing
+        self.module_sets: set[str] = set()          # module-level names bound to a set (importable elsewhere)
 
 
 def gather_globals(trees: dict[str, ast.Module]) -> Globals:
     g = Globals()
     for tree in trees.values():
+        for st in tree.body:
+            tgt, val = None, None
+            if isinstance(st, ast.Assign) and len(st.targets) == 1:
+                tgt, val = st.targets[0], st.value
+            elif isinstance(st, ast.AnnAssign):
+                tgt, val = st.target, st.value
+                if isinstance(tgt, ast.Name) and _ann_is_set(st.annotation):
+                    g.module_sets.add(tgt.id)
+            if isinstance(tgt, ast.Name) and val is not None and (
+                    isinstance(val, (ast.Set, ast.SetComp)) or (
+                        isinstance(val, ast.Call) and isinstance(val.func, ast.Name)
+                        and val.func.id in ("set", "frozenset"))):
+                g.module_sets.add(tgt.id)
         for n in ast.walk(tree):
             if isinstance(n, (ast.FunctionDef, ast.AsyncFunctionDef)) and n.returns is not None:
                 if _ann_is_set(n.returns):
@@ -115,7 +129,7 @@ def gather_globals(trees: dict[str, ast.Module]) -> Globals:
 class FileScan:
     def __init__(self, rel: str, tree: ast.Module, g: Globals):
         self.rel, self.tree, self.g = rel, tree, g
-        self.sets: set[str] = set()         # names that are sets
+        self.sets: set[str] = set(g.module_sets)   # names that are sets (module-level ones of any file included)
         self.containers: set[str] = set()   # names that are dicts/lists OF sets
         self.parent: dict[ast.AST, ast.AST] = {}
         for p in ast.walk(tree):
